@@ -1,21 +1,15 @@
 import MV.Props.FactsLib
-/-! Source facts the C08 model relies on (checked against the facts regenerated from /repo on every run). -/
+/-! Structural facts C16 relies on, re-extracted from /repo on every run. -/
 namespace MV.Facts
-
-def expectedC08 : List (String × String) := [("mathx.smallFactLimit", "20"), ("lits:mathx.Choose", "0 0 0 1 1 1")]
-
-/-- the constants and literals the C08 model mirrors are still what the source says -/
-theorem facts_C08 : holdsAll expectedC08 = true := by decide
-
 
 /-- State that outlives a call, as extracted from the source on this run: the package-level
 variables of the packages this property's code lives in, the functions (other than `init`) that
 assign to them or call methods on them, and the fields of the property's struct types. The model is
 a pure function of the arguments and of these fields; a new variable, writer or field is state the
 model does not know of. -/
-def stateC08 : List (String × String) := [("globals:mathx", "nan smallFact"), ("globalwrites:mathx", "")]
+def stateC16 : List (String × String) := [("globals:scale", ""), ("globalwrites:scale", ""), ("fields:scale.Linear", "Min:float64 Max:float64 Base:int Clamp:bool"), ("fields:scale.Log", "private:struct{} Min:float64 Max:float64 Base:int Clamp:bool"), ("fields:scale.QQ", "Src:Quantitative Dest:Quantitative")]
 
 /-- the source has exactly the package-level variables, writers and struct fields the model accounts for -/
-theorem state_C08 : holdsAll stateC08 = true := by decide +kernel
+theorem state_C16 : holdsAll stateC16 = true := by decide +kernel
 
 end MV.Facts
